@@ -710,7 +710,18 @@ def prep(fn, lookup=None, keep=(), depth=3):
 def resolver(fn, stop=()):
     """r(expr) -> copy of expr with single-definition locals replaced (recursively) by their defining expressions.
     Conditions as in propagate() except dominance, which is approximated by source order (definition line before use)."""
+    orig = fn
     fn = split_unpacking(fn)
+    # execution order by position in the tree, not by line number: statements of an expanded helper keep the helper's line numbers
+    for f_ in ((fn,) if fn is orig else (orig, fn)):
+        k_ = [0]
+
+        def _number(n_):
+            n_._pos = k_[0]
+            k_[0] += 1
+            for c_ in ast.iter_child_nodes(n_):
+                _number(c_)
+        _number(f_)
     counts = _assigned_names(fn)
     params = {a.arg for a in fn.args.posonlyargs + fn.args.args + fn.args.kwonlyargs}
     defs = {}
@@ -743,10 +754,10 @@ def resolver(fn, stop=()):
         need = 1 if name in params else 2          # a parameter rebound once (x = np.array(x)) has the argument as its first value
         if name in stop or name in mutated or len(ds) < need or counts.get(name) != len(ds) or not all(id(d) in top for d in ds):
             return None
-        before = [d for d in ds if d.lineno < lineno]
+        before = [d for d in ds if d._pos < lineno]
         if not before:
             return None
-        d = max(before, key=lambda x: x.lineno)
+        d = max(before, key=lambda x: x._pos)
         if isinstance(d.value, (ast.List, ast.Dict, ast.Set, ast.ListComp, ast.DictComp, ast.SetComp, ast.GeneratorExp)):
             return None
         return d
@@ -758,14 +769,14 @@ def resolver(fn, stop=()):
         class T(ast.NodeTransformer):
             def visit_Name(self, n):
                 if isinstance(n.ctx, ast.Load):
-                    line = at if at is not None else getattr(n, 'lineno', 10 ** 9)
+                    line = at if at is not None else getattr(n, '_pos', 10 ** 9)
                     d = single(n.id)
-                    if d is not None and getattr(d, 'lineno', 0) <= line:
-                        return r(copy.deepcopy(d.value), depth - 1)
+                    if d is not None and d._pos <= line:
+                        return r(copy.deepcopy(d.value), depth - 1, at=d._pos)
                     d = latest(n.id, line)
                     if d is not None:
-                        # the definition may refer to the previous value of the same name: resolve it as of its own line
-                        return r(copy.deepcopy(d.value), depth - 1, at=d.lineno)
+                        # the definition may refer to the previous value of the same name: resolve it as of its own position
+                        return r(copy.deepcopy(d.value), depth - 1, at=d._pos)
                 return n
         return T().visit(copy.deepcopy(expr))
     r.single = single
